@@ -97,7 +97,7 @@ fn real_main(mut args: Vec<String>) -> i32 {
         },
         "count" => {
             use universe::Universe::*;
-            for u in [U2, U3, UC { extras: 0 }, UC { extras: 1 }, UE { extras: 0, capturer_files: None, slider_only: false }, UE { extras: 1, capturer_files: Some(vec![1, 4, 6]), slider_only: true }, UP, U4 { a: 5, b: 11, files: Some((3, 4)) }, UPIN, UDBL, UCE, UEA, UEX, UPP, UCK { extras: 0 }, UCK { extras: 1 }] {
+            for u in [U2, U3, UC { extras: 0 }, UC { extras: 1 }, UE { extras: 0, capturer_files: None, slider_only: false }, UE { extras: 1, capturer_files: Some(vec![1, 4, 6]), slider_only: true }, UP, U4 { a: 5, b: 11, files: Some((3, 4)) }, UPIN, UDBL, UCE, UEA, UEX, UPP, UPQ, UCK { extras: 0 }, UCK { extras: 1 }] {
                 let t = Instant::now();
                 out!("{} = {} ({:?})", u.name(), universe::count(&u), t.elapsed());
             }
